@@ -476,8 +476,9 @@ def render_block(b, line0: int):
             # documented: a body that starts with ':' or '---' needs a blank line after the head
             if not opt_lines and not b.get("blank") and first is not None and first["t"] in (
                     "fieldlist", "hr", "div", "directive", "deflist", "table", "para", "heading", "blockbreak"):
-                probe = render_block(dict(first), 0)[0]
-                if probe.startswith(":") or probe.startswith("---"):
+                probe = render_block(copy.deepcopy(first), 0)[0]
+                # (a colon-fence directive may start directly with a nested ':::' fence: MyST handles that itself)
+                if (probe.startswith(":") and not (b["fence"] == ":" and probe.startswith(":::"))) or probe.startswith("---"):
                     pre.append("")
             elif opt_lines and b["optstyle"] == "colon" and not b.get("blank") and first is not None:
                 # a ':k: v' option block ends at the first line that does not start with ':'
